@@ -31,10 +31,27 @@ def seeds_block():
             continue
         m = json.load(open(mp))
         rows.append("| %s | %s | %s | %s | %s |" % (os.path.basename(d), m.get("property", "?"), str(m.get("summary", ""))[:260].replace("|", "\\|").replace("\n", " "),
-                                                   str(m.get("needs_to_manifest", ""))[:200].replace("|", "\\|").replace("\n", " "), str(m.get("caught_by", "—")).replace("|", "\\|")))
+                                                   str(m.get("needs_to_manifest", ""))[:200].replace("|", "\\|").replace("\n", " "), (str(m.get("caught_by", "—")) + (" — reported as `" + "`, `".join(k.replace("|", "¦") for k in m["caught_keys"][:2]) + "`" if m.get("caught_keys") else "")).replace("|", "\\|")))
     return "\n".join(rows)
 
-blocks = {"FIXED": fixed_block(), "FINDINGS": findings_block(), "SEEDS": seeds_block()}
+def counts_block():
+    import subprocess
+    man = json.load(open(os.path.join(V, "MANIFEST.json")))
+    try:
+        nfix = len([l for l in subprocess.check_output(["git", "-C", "/repo", "log", "--format=%s", "158e422..HEAD"], text=True).splitlines() if l.startswith("fix:")])
+    except Exception:
+        nfix = len({f["commit"] for f in kf["fixed"]})
+    metas = [json.load(open(m)) for m in glob.glob(os.path.join(V, "seeded", "*", "meta.json"))]
+    missed = len([m for m in metas if str(m.get("caught_by", "")).startswith("MISSED")])
+    props = sorted({m.get("property") for m in metas})
+    return ("Outcome of building it (details in §8): %d properties claimed, %d not applicable;\n"
+            "**%d `fix:` commits** in `/repo` (each validated against the unedited 3151-test suite),\n"
+            "**%d known findings** recorded by exact key, %d seeded regressions from independent\n"
+            "sub-agents stored under `seeded/` covering %d properties (%d caught by the rules as they\n"
+            "stood when the seed arrived, %d missed and caught after strengthening — §9)."
+            % (len(man["checks"]), len(man.get("not_applicable", [])), nfix, len(kf["findings"]), len(metas), len(props), len(metas) - missed, missed))
+
+blocks = {"FIXED": fixed_block(), "FINDINGS": findings_block(), "SEEDS": seeds_block(), "COUNTS": counts_block()}
 p = os.path.join(V, "DESIGN.md")
 s = open(p).read()
 for k, v in blocks.items():
